@@ -143,7 +143,9 @@ def make_case(rng, i):
 
 
 def owns(rule, flags):
-    return rule.startswith("C10.") or rule == "C11.resume-untouched"
+    # (an exception while the machine stores its first state in the user's model is C10's too)
+    return rule.startswith("C10.") or rule in ("C11.resume-untouched", "construct.raised") or (
+        rule == "C01.exception-type" and bool(flags.get("in_initial")))
 
 
 def classify(case, rule, detail, log, fault, ck):
